@@ -72,6 +72,32 @@ theorem superseded_tail_never_starts (parse : SFrame → Except String (HCfg × 
     startHandler parse name stream r = (stream ++ [unregistered cfg f none], none) :=
   superseded_never_starts parse name stream r cfg f hp hl
 
+/-- at most one active instance per (context, name), whichever resume mode and wherever the
+    replacing frame fell relative to the subscription: once a later `.register` / `.unregister`
+    of its name and context is stored, a started instance that has gone through its subscription
+    is stopped -/
+theorem replaced_started_instance_is_stopped (parse : SFrame → Except String (HCfg × Resume)) (name : String)
+    (pre : List SFrame) (r : SFrame) (s' : List SFrame) (st : Started)
+    (h : startHandler parse name pre r = (s', some st)) (ext : List SFrame) (thr f : SFrame)
+    (hf : f ∈ s' ++ ext) (hctx : f.ctx = st.cfg.ctx) (hreg : isRegTraffic st.cfg f = true)
+    (hlater : st.cfg.id < f.id) (hres : ∀ x, st.resume = .after x → x < f.id)
+    (eval : σ → SFrame → σ × EvalRes) (env : σ) :
+    (run st.cfg eval .running env (subscription st.cfg st.resume pre ((s' ++ ext).drop st.subAt) thr)).1 = .stopped :=
+  started_instance_replaced_is_stopped parse name pre r s' st h ext thr f hf hctx hreg hlater hres eval env
+
+/-- every `.register` the serve loop gets to is answered by exactly one frame: `<name>.registered`
+    (an instance exists, subscribed at that point) or one `<name>.unregistered` (script rejected, or
+    a tail handler superseded before it subscribed) and no instance -/
+theorem every_register_answered_once (parse : SFrame → Except String (HCfg × Resume)) (name : String)
+    (stream : List SFrame) (r : SFrame) :
+    (∃ st, startHandler parse name stream r = (stream ++ [registeredFrame st.cfg], some st) ∧
+        st.subAt = stream.length) ∨
+    (∃ e, parse r = .error e ∧
+        startHandler parse name stream r = (stream ++ [rejectedFrame name r e], none)) ∨
+    (∃ cfg f, parse r = .ok (cfg, .tail) ∧ laterTraffic cfg stream = some f ∧
+        startHandler parse name stream r = (stream ++ [unregistered cfg f none], none)) :=
+  start_answers_once parse name stream r
+
 /-- the start-up scan keeps at most one registration per (context, name) -/
 theorem one_registration_per_key (h : List SFrame) : ((compactTable h).map (·.key)).Nodup :=
   compact_one_per_key h
